@@ -417,7 +417,23 @@ def search_rules(ctx, facts, rep):
     except PathExplosion:
         ps_ = []
     KNOWN = (r"saturating_sub|^Lt\(ok\(Seek::seek\(reader, End\{0: 0\}\)\), 22\)$|^discr\(|^ok\(ReadBytesExt::read_u32\(reader\)\)$")
-    extra = sorted({a_[:80] for p_ in ps_ for a_, v_ in p_["decisions"] if a_ != "#iter" and not re.search(KNOWN, a_)})
+    extra = set()
+    for p_ in ps_:
+        sig_seen = False
+        for a_, v_ in p_["decisions"]:
+            if a_ == "#iter":
+                sig_seen = False
+                continue
+            if re.search(r"^ok\(ReadBytesExt::read_u32\(reader\)\)$", a_):
+                sig_seen = True
+            if re.search(KNOWN, a_):
+                continue
+            # `if pos == 0 { break } pos -= 1` is `checked_sub(1)` spelled out: a test of the position against zero AFTER this position's
+            # four bytes were compared with the signature ends the search, it does not skip a candidate
+            if re.match(r"^var:\w+$", a_) and sig_seen and (v_ == 0 or v_ == ("not-in", (0,))):
+                continue
+            extra.add(a_[:80])
+    extra = sorted(extra)
     ok &= rep.check(bool(ps_) and not extra, rule, "atoms", where(f, f.span), "only the search window, the signature comparison and I/O results decide",
                     "the end-record search additionally branches on %s: some positions carrying a valid end record are skipped" % extra[:3])
     return ok
@@ -474,7 +490,7 @@ def names_rules(facts, rep):
         pn = _paths(nw, max_loop=1, max_paths=30000)
     except PathExplosion:
         pn = []
-    KN = (r"record_too_small\(|disk_number|^Gt\(ok\(read::get_directory_counts|^(Gt|Le|Lt|Ge)\(.*get_directory_counts.*cde|^Result::is_err\(Seek::seek|^discr\(Iterator::next\(|^discr\(Try::branch\(|"
+    KN = (r"record_too_small\(|disk_number|^(Gt|Le|Lt|Ge)\(ok\(read::get_directory_counts\(.*\)\)\.2, \(ok\(CentralDirectoryEnd::find_and_parse\(reader\)\)\.1 as usize\)\)$|^Gt\(ok\(read::get_directory_counts|^(Gt|Le|Lt|Ge)\(.*get_directory_counts.*cde|^Result::is_err\(Seek::seek|^discr\(Iterator::next\(|^discr\(Try::branch\(|"
           r"^discr\(Seek::seek|^discr\(ok\(|^discr\(Result::map_err")
     extra = sorted({a_[:80] for p_ in pn for a_, v_ in p_["decisions"] if a_ != "#iter" and not re.search(KN, a_)})
     kept = True
